@@ -38,7 +38,7 @@ class Spec(CheckSpec):
                 yield {"seed": base_seed * 1000003 + 910000 + rep * 10 + len(name), "shipped": name, "max_episode_length": mel, "n_ops": nops, "monitors": mons, "profile": {"push": 0.1}, "op_mix": {"step": 0.85, "reset": 0.05, "fault": 0.10}}
         for i in range(n):
             seed = base_seed * 1000003 + 20000000 + i
-            prof = {"obs": True, "push": 0.15, "tight_links": 0.1, "nmne": 0.7, "flatten": 0.5, "avoid": ["listen_on_ports"]}
+            prof = {"obs": True, "push": 0.15, "tight_links": 0.1, "nmne": 0.7, "flatten": 0.5}
             yield {"seed": seed, "profile": prof, "n_ops": 50, "monitors": mons, "op_mix": {"step": 0.78, "reset": 0.05, "fault": 0.17}}
 
     def extra_evidence(self, results):
